@@ -215,7 +215,10 @@ async def tcp_flush_race_case(ctx, version: str, n_parked: int, payload_len: int
         await asyncio.sleep(0.2)
     finally:
         server.close()
-        await server.wait_closed()
+        try:  # on Python 3.12 this waits for every open connection: bounded, a case that failed half-way leaves one open
+            await asyncio.wait_for(server.wait_closed(), 5)
+        except asyncio.TimeoutError:
+            pass
     ctx.case(("tcp-flush-race", version, n_parked, payload_len), sample=case)
     ctx.clause("flush-race-on-real-tcp")
     written: dict[tuple, list[str]] = {}
